@@ -576,7 +576,14 @@ fn exec_line(w: &mut World, rec: &mut Recorder, line_in: &str) {
                 rec.count(&format!(
                     "rs-{}:{}",
                     t[1],
-                    if s.starts_with("ok") { s.split(' ').take(2).last().map(|x| if x.len() > 8 { "msg" } else { x }).unwrap_or("?") } else { s.split(' ').last().unwrap_or("?") }
+                    if s.starts_with("ok") {
+                        match s.split(' ').nth(1) {
+                            Some(x @ ("resp" | "push" | "empty")) => x,
+                            _ => "msg",
+                        }
+                    } else {
+                        s.split(' ').last().unwrap_or("?")
+                    }
                 ));
                 let req = if is_push {
                     format!("rs push {}", hint as u8)
@@ -685,18 +692,66 @@ fn exec_line(w: &mut World, rec: &mut Recorder, line_in: &str) {
                 rec.count(&format!("rq-gpoll:{}", if s.starts_with("ok") { "ok" } else { s.split(' ').last().unwrap_or("?") }));
                 rec.line(line.clone(), s);
             }
+            ["rq", "gsub"] => {
+                // SyncRequester::subscribe / unsubscribe with real storage: what they write must decode
+                let cache = PeerCache::new();
+                let mut tb = TraversalBuffer::new();
+                let rq = &mut w.rq;
+                let target = &mut w.buf;
+                let provider: &mut MemStorageProvider = match &mut w.b {
+                    Some(b) => b.client.provider(),
+                    None => &mut w.provider,
+                };
+                let r = vh::catch(std::panic::AssertUnwindSafe(|| {
+                    let n = rq.subscribe(target, provider, &cache.session_heads(), 7, 9, &mut tb)?;
+                    let sub = target[..n].to_vec();
+                    let n = rq.unsubscribe(target)?;
+                    Ok::<_, SyncError>((sub, target[..n].to_vec()))
+                }));
+                let s = match r {
+                    Err(p) => {
+                        rec.panics.push(format!("SyncRequester::subscribe panicked ({p})"));
+                        "panic".to_string()
+                    }
+                    Ok(Ok((sub, unsub))) => {
+                        match (SyncIncoming::decode(&sub), SyncIncoming::decode(&unsub)) {
+                            (Ok(SyncIncoming::Subscribe(x)), Ok(SyncIncoming::Unsubscribe(_))) => {
+                                if x.remain_open().as_secs() != 7 || x.max_bytes() != 9 {
+                                    rec.oracle_fail("subscribe does not round-trip its fields".to_string());
+                                }
+                                for c in x.heads().iter() {
+                                    if !w.addrs.iter().any(|a| *a == c) {
+                                        rec.oracle_fail(format!("subscribe sample contains {} which is not in the requester's graph", show_addr(&c)));
+                                    }
+                                }
+                            }
+                            _ => rec.oracle_fail("subscribe/unsubscribe wrote messages that do not decode as such".to_string()),
+                        }
+                        w.last_out = sub;
+                        "ok".to_string()
+                    }
+                    Ok(Err(e)) => show_err(&e),
+                };
+                rec.line(line.clone(), s);
+            }
             ["rq", "gadd"] => {
                 // the consumer of `receive`'s output: ClientState::add_commands on the requester's replica
                 let cmds = std::mem::take(&mut w.last_cmds);
+                let mut gadd_fail: Option<String> = None;
                 if let Some(b) = &mut w.b {
                     let mut trx = w.b_trx.take().unwrap_or_else(|| b.transaction());
                     let r = vh::catch(std::panic::AssertUnwindSafe(|| b.add(&mut trx, &cmds)));
                     match r {
-                        Err(p) => rec.panics.push(format!(
-                            "add_commands panicked ({p}) on {} commands returned by SyncRequester::receive, first parent {}",
-                            cmds.len(),
-                            cmds.first().map_or("-".to_string(), |c| show_prior(&c.parent))
-                        )),
+                        Err(p) => {
+                            let parents: Vec<String> = cmds.iter().map(|c| show_prior(&c.parent)).collect();
+                            let what = format!(
+                                "add_commands panicked ({p}) on the {} commands SyncRequester::receive returned for the preceding message; parents: {}",
+                                cmds.len(),
+                                parents.join(" ")
+                            );
+                            rec.panics.push(what.clone());
+                            gadd_fail = Some(what);
+                        }
                         Ok(Ok(n)) => {
                             rec.count("gadd:ok");
                             rec.count_n("gadd:added", n as u64);
@@ -709,6 +764,9 @@ fn exec_line(w: &mut World, rec: &mut Recorder, line_in: &str) {
                     }
                 }
                 rec.line(line.clone(), "done");
+                if let Some(f) = gadd_fail {
+                    rec.oracle_fail(f);
+                }
             }
             ["rq", "gcommit"] => {
                 if let (Some(b), Some(trx)) = (&mut w.b, w.b_trx.take()) {
@@ -1372,7 +1430,8 @@ fn graph_case(r: &mut Rng, rec: &mut Recorder) {
         }
         _ => {
             rec.count("gen:g-poll-oversized-sample");
-            let b = crafted(r, 101 + r.below(30) as usize, session, graph);
+            let k = 101 + r.below(30) as usize;
+            let b = crafted(r, k, session, graph);
             exec_line(&mut w, rec, &format!("rs recv {}", hex(&b)));
             exec_line(&mut w, rec, &format!("rs recv {}", hex(&request)));
         }
@@ -1407,6 +1466,13 @@ fn graph_case(r: &mut Rng, rec: &mut Recorder) {
                         exec_line(&mut w, rec, "rq gadd");
                     }
                 }
+            }
+            5 => {
+                rec.count("gen:g-mid-subscribe");
+                exec_line(&mut w, rec, "rq gsub");
+                let b = w.last_out.clone();
+                exec_line(&mut w, rec, &format!("gheads {}", hex(&b)));
+                exec_line(&mut w, rec, &format!("decode {}", hex(&b)));
             }
             3 => {
                 rec.count("gen:g-mid-heads");
@@ -1464,6 +1530,29 @@ fn graph_case(r: &mut Rng, rec: &mut Recorder) {
     exec_line(&mut w, rec, "rq ready");
     exec_line(&mut w, rec, "rq gpoll");
     exec_line(&mut w, rec, "rq ready");
+    // ---- a fresh requester session fed one in-sequence response whose commands carry extreme
+    // parent addresses; whatever `receive` returns goes to add_commands like in a real client
+    if r.chance(1, 3) {
+        rec.count("gen:g-extreme-parent");
+        let s2 = gen_u128(r);
+        exec_line(&mut w, rec, &format!("rq newsid {g} {s2}"));
+        let real = *r.pick(&addrs);
+        let far = |m: u64| Address { id: real.id, max_cut: MaxCut::new(m) };
+        let big = *r.pick(&[u64::MAX, u64::MAX - 1, 1u64 << 63]);
+        let parent = match r.below(3) {
+            0 => Prior::Single(far(big)),
+            1 => Prior::Merge(real, far(big)),
+            _ => Prior::Merge(far(big), far(u64::MAX)),
+        };
+        let (mut metas, data) = gen_metas(r, 2);
+        metas[1].parent = parent;
+        metas[0].parent = Prior::Single(real);
+        let m = MResp::SyncResponse { session_id: s2, response_index: 0, commands: metas };
+        exec_line(&mut w, rec, &recv_line(&m, &data));
+        if !w.last_cmds.is_empty() {
+            exec_line(&mut w, rec, "rq gadd");
+        }
+    }
 }
 
 fn main() {
